@@ -7,7 +7,7 @@ import builders as B
 from smtlib import REAL, INT
 
 def driver(flavour):
-    return os.path.join(C.VERIF, "build", "drivers", flavour, "threads_driver")
+    return os.path.join(C.BUILD, "drivers", flavour, "threads_driver")
 
 BIGS = [2**64 + 13, 2**65, 3 * 2**63 + 1, 10**20 + 7, 2**70 - 1, 2**32 + 1, 2**31 - 1]
 
